@@ -911,13 +911,21 @@ func getMinimumGap(list []int) (gap, logGap int, err error) {
 		}
 	}
 
-	// Sets gap to the largest power-of-two that divides it.
-	// We will then discart all coefficients that are not a
-	// multiple of this gap (and thus possibly entire ciph-
-	// ertexts).
+	// Sets logGap to the largest power of two that divides EVERY index (hence every gap):
+	// all coefficients that are not a multiple of 2^logGap are discarded, which must not
+	// discard a requested index (an index list with an offset, e.g. {1, 3}, has logGap = 0).
+	var or int
+	for _, x := range list {
+		or |= x
+	}
 	for gap&1 == 0 {
-		logGap++
 		gap >>= 1
+	}
+	if or != 0 {
+		for or&1 == 0 {
+			logGap++
+			or >>= 1
+		}
 	}
 
 	return
